@@ -233,6 +233,11 @@ def _chunk(jobs):
                 out.append({"error": "hang" if r.hang else f"subscribe raised {type(r.raised).__name__}: {r.raised}", "_meta": meta})
                 r.close()
                 continue
+            if gqlmini.ROOT_MISMATCH:
+                out.append({"error": f"a root field resolver saw info.root_value that is not the event it resolves on (at {gqlmini.ROOT_MISMATCH[0]})", "_meta": meta})
+                del gqlmini.ROOT_MISMATCH[:]
+                r.close()
+                continue
             rec = {"schema": case["schema"], "doc": case["doc"], "vars": case["vars"], "events": case["events"],
                    "creation": opts["creation"], "sourceFails": opts["source_fails"],
                    "hasSingle": r.single is not None,
